@@ -2,6 +2,8 @@ import Woodpile.Driver.Util
 import Woodpile.Driver.IterScript
 import Woodpile.Model.SlidingDeque
 import Woodpile.Model.ZDeque
+import Woodpile.Model.DequeTraits
+import Woodpile.Driver.Unwind
 
 /-!
 Model driver for family `sdeque` (C15).  Op vocabulary (values are `u32`s in decimal):
@@ -28,6 +30,15 @@ no list of 2^64 units is ever built.  Answers `zvec <ret> len=<len>` and
 `zprobe <ret> len=<len> backing=<container length>`.  `zpush` onto a container that already
 holds `usize::MAX` units answers `cap` and is not executed (std specifies a
 capacity-overflow panic for `Vec::<()>::push` there; `usize` is 64 bits).
+
+Standard traits over several object instances (track traits; `Model/DequeTraits.lean`, theorems
+`Props/C15T.lean`): next to the current deque the state holds objects `d0, d1, …`;
+
+  dnew | ddefault | dstore k | dload k | dswap k | dclone_from k | dclone_into k | dtake k | ddebug
+
+run `DequeTraits.mstep` (`clone_from dst src` = `dst := src`); they answer the view of the object
+written, or `nohandle`.  `unwinding <op>` / `scoped_panic …`: see `Driver/Unwind.lean` (every op of
+this family is specified not to panic, so every op may be wrapped).
 -/
 namespace Woodpile.Driver.SlidingDequeFam
 open Woodpile.Driver Woodpile.SlidingDeque
@@ -131,6 +142,40 @@ structure St where
   cur : Option (SDeque Nat)
   snaps : List (SDeque Nat)
   z : ZDeque := ZDeque.ofLen 0
+  /-- further object instances `d0, d1, …` (handle ops) -/
+  objs : List (SDeque Nat) := []
+
+open Woodpile.DequeTraits in
+def parseMOp : List String → Option (Option MOp)
+  | ["dnew"] => some (some .new)
+  | ["ddefault"] => some (some .default)
+  | ["dstore", k] => k.toNat?.map (fun k => some (.store k))
+  | ["dload", k] => k.toNat?.map (fun k => some (.load k))
+  | ["dswap", k] => k.toNat?.map (fun k => some (.swap k))
+  | ["dclone_from", k] => k.toNat?.map (fun k => some (.cloneFrom k))
+  | ["dclone_into", k] => k.toNat?.map (fun k => some (.cloneInto k))
+  | ["dtake", k] => k.toNat?.map (fun k => some (.take k))
+  | ["ddebug"] => some none
+  | _ => none
+
+/-- the handle ops; `none` = not one of them -/
+def stepTraits (st : St) (ws : List String) : Option (St × List String) :=
+  match parseMOp ws with
+  | none => none
+  | some mop =>
+    match st.cur with
+    | none => some (st, ["dead"])
+    | some s =>
+      match mop with
+      | none => some (st, fmtObs "()" s)      -- `ddebug`: reads only
+      | some op =>
+        match Woodpile.DequeTraits.mstep (Woodpile.DequeTraits.sdequeTraits Nat) ⟨s, st.objs⟩ op with
+        | .nohandle => some (st, ["nohandle"])
+        | .panic => some ({ st with cur := none }, ["panic"])
+        | .ok shown m' =>
+          match fmtObs "()" shown with
+          | ["panic"] => some ({ st with cur := none }, ["panic"])
+          | lines => some ({ st with cur := some m'.cur, objs := m'.objs }, lines)
 
 def stepLine (st : St) (ws : List String) : St × List String :=
   match st.cur with
@@ -144,8 +189,8 @@ def stepLine (st : St) (ws : List String) : St × List String :=
         | none => (st, ["nosnap"])
         | some s0 =>
           match exec s0 c with
-          | none => ({ cur := none, snaps := st.snaps.take (k + 1) }, ["panic"])
-          | some (r, s') => ({ cur := some s', snaps := st.snaps.take (k + 1) ++ [s'] }, fmtObs r s')
+          | none => ({ st with cur := none, snaps := st.snaps.take (k + 1) }, ["panic"])
+          | some (r, s') => ({ st with cur := some s', snaps := st.snaps.take (k + 1) ++ [s'] }, fmtObs r s')
       | _, _ => (st, ["bad-op"])
     | ["iterscript", script] =>
       -- the iterator of the `Deref` slice: double-ended, exact size; the deque is not changed
@@ -174,6 +219,9 @@ def stepLine (st : St) (ws : List String) : St × List String :=
       | none, none => (st, ["bad-op"])
 
 def family : Family :=
-  { σ := St, init := { cur := SDeque.new, snaps := [SDeque.empty] }, step := stepLine }
+  withUnwind
+    { σ := St, init := { cur := SDeque.new, snaps := [SDeque.empty] },
+      step := fun st ws => match stepTraits st ws with | some r => r | none => stepLine st ws }
+    (fun _ _ => true)
 
 end Woodpile.Driver.SlidingDequeFam
